@@ -60,6 +60,27 @@ void roundTrip(const std::string& F, const std::string& source, const std::strin
 		R_viol("raw-fixed-point", d.site, source + ": rawsave(load(N)) != N; " + d.detail);
 	}
 
+	// the same file through an object that has held another model before: same bytes (1 case in 3)
+	if (hashStr(source) % 3 == 0) {
+		R_phase("used-object");
+		Rng hr(hashStr(source) ^ g_cfg.seed);
+		for (int raw = 1; raw >= 0; raw--) {
+			NifFile u;
+			std::string hist = useObject(u, hr);
+			if (loadNif(u, F) != 0) { R_viol("object-history", vclass + "/load", source + ": accepted by a fresh object, rejected by an object that " + hist); break; }
+			std::string out = saveNif(u, raw == 1);
+			std::string want;
+			if (raw) want = N;
+			else { NifFile c; loadNif(c, F); want = saveNif(c, false); }
+			if (out != want) {
+				FileDiff d = diffFiles(want, out, vclass);
+				R_viol("object-history", std::string(raw ? "raw/" : "default/") + d.site, source + ": a NifFile object that " + hist + " writes this file differently from a fresh object; " + d.detail);
+				break;
+			}
+			R_stat("used_object_saves_compared");
+		}
+	}
+
 	// default options: D2 == D3
 	R_phase("default-rounds");
 	std::string D[3];
